@@ -24,7 +24,8 @@ RULE = ("scenario = start state {empty, p1->X, p1,p2->X, X unreferenced, p1->mis
         "yield-point assumption.")
 ASSUMPTIONS = ["yield points = shared file-system calls + condition operations; under the GIL these are the only "
                "places where threads of this code base communicate (DESIGN.md 3.4/6)",
-               "directory-level stat/mkdir are not scheduling points (they commute: directories are never removed)",
+               "directory-level stat/mkdir are scheduling points only in scenarios where directories can still be missing "
+               "(start from an empty store; all metadata scenarios); elsewhere they are skipped because they commute",
                "the sequential specification is the implementation run without preemption"]
 SYMPTOMS = {"deadlock", "outcome-not-sequential", "state-not-sequential", "object-removed-while-referenced",
             "history-not-linearizable", "worker-hang", "mp-list-not-empty"}
